@@ -34,7 +34,14 @@ pub struct UMsg {
     pub cmds: Vec<UCmd>,
 }
 
+/// Tags from this value on denote messages that cannot be serialised (`ser` returns an error):
+/// the runtime must skip such a Send and carry on with the handler's remaining commands.
+const UNSERIALISABLE_FROM: u32 = 900_000;
+
 fn ser(m: &UMsg) -> Result<Vec<u8>, String> {
+    if m.tag % 1_000_000 >= UNSERIALISABLE_FROM {
+        return Err("unserialisable message".into());
+    }
     let cmds: Vec<String> = m
         .cmds
         .iter()
@@ -173,9 +180,16 @@ pub fn udp_worker(args: &[String]) -> i32 {
     LOG.get_or_init(|| Mutex::new(Vec::new()));
     T0.get_or_init(Instant::now);
     let n_actors = rng.range(2, 4);
+    // Actor ports: some from a per-process block below the ephemeral range (the kernel never
+    // hands those out for bind(0), and concurrently running workers have different pids), some
+    // ephemeral ones (>= 32768; probed free, then released for the runtime to bind - a
+    // concurrent scenario may grab such a port in between, which the checker tolerates as
+    // foreign traffic / an actor that did not start).
+    let base = 10_000 + (std::process::id() % 2_200) as u16 * 10;
     let mut ports = Vec::new();
-    for _ in 0..n_actors {
-        match free_port() {
+    for i in 0..n_actors {
+        let p = if rng.pct(50) { Some(base + i as u16) } else { free_port() };
+        match p {
             Some(p) if !ports.contains(&p) => ports.push(p),
             _ => {
                 println!("{}", json!({"error": "no free port"}));
@@ -192,10 +206,11 @@ pub fn udp_worker(args: &[String]) -> i32 {
         driver_socks.push(s);
     }
     let driver_ports: Vec<u16> = driver_socks.iter().map(|s| s.local_addr().unwrap().port()).collect();
+    let salt = std::process::id() % 4_000 + 1;
     let mut next_tag = 100u32;
     let mut tag = || {
         next_tag += 1;
-        next_tag
+        salt * 1_000_000 + next_tag
     };
     // actors: start-up commands and timer reactions
     let mut actors = Vec::new();
@@ -279,6 +294,21 @@ pub fn udp_worker(args: &[String]) -> i32 {
                     cmds.extend(extra);
                     cmds.push(c);
                 }
+                if rng.pct(15) {
+                    // arm a timer and cancel it again in the same handler: it must not fire
+                    let t = rng.below(3) as u8;
+                    let lo = rng.range(5, 40) as u64;
+                    cmds.push(UCmd::SetTimer(t, lo, lo + 5));
+                    cmds.push(UCmd::CancelTimer(t));
+                }
+                if rng.pct(15) {
+                    // a Send that cannot be serialised, followed by ordinary Sends: the later
+                    // ones must still go out
+                    cmds.push(UCmd::Send(id_of(*rng.pick(&driver_ports)), UNSERIALISABLE_FROM + tag()));
+                    for _ in 0..rng.range(1, 2) {
+                        cmds.push(UCmd::Send(id_of(*rng.pick(&driver_ports)), tag()));
+                    }
+                }
                 let m = UMsg { tag: tag(), cmds };
                 log(json!({"t": now_us(), "who": "driver", "ev": "send", "from_port": driver_ports[sock_i], "from_id": id_of(driver_ports[sock_i]),
                            "to_actor": to, "tag": m.tag, "carried": m.cmds.len()}));
@@ -295,7 +325,7 @@ pub fn udp_worker(args: &[String]) -> i32 {
         drain(&driver_socks, &driver_ports);
     }
     let events = LOG.get().unwrap().lock().unwrap().clone();
-    println!("{}", json!({"actor_ports": ports, "driver_ports": driver_ports, "events": events}));
+    println!("{}", json!({"actor_ports": ports, "driver_ports": driver_ports, "salt": salt, "events": events}));
     0
 }
 
@@ -319,6 +349,9 @@ pub fn check_log(v: &Value) -> Result<BTreeMap<&'static str, u64>, (String, Valu
     let id_to_actor: BTreeMap<u64, usize> = actor_ports.iter().enumerate().map(|(i, p)| (id_of(*p as u16), i)).collect();
     let driver_ids: BTreeSet<u64> = driver_ports.iter().map(|p| id_of(*p as u16)).collect();
     let fail = |what: &str, detail: Value| Err((what.to_string(), detail));
+    // tags carry a per-process salt: a datagram with another salt strayed in from a scenario
+    // running concurrently (port reuse, see udp_worker) and is not ours to judge
+    let salt = v["salt"].as_u64().unwrap_or(0);
     // what was sent to each actor: tag -> (sender id, destination actor)
     let mut sent_to_actor: BTreeMap<u64, (u64, usize)> = BTreeMap::new();
     // what actors sent to driver sockets: tag -> (actor index, driver id)
@@ -332,6 +365,9 @@ pub fn check_log(v: &Value) -> Result<BTreeMap<&'static str, u64>, (String, Valu
             for c in e["cmds"].as_array().unwrap() {
                 if let Some(d) = c["send"].as_u64() {
                     let tag = c["tag"].as_u64().unwrap();
+                    if tag % 1_000_000 >= UNSERIALISABLE_FROM as u64 {
+                        continue; // cannot be serialised: nothing may (and nothing can) arrive
+                    }
                     if let Some(a) = id_to_actor.get(&d) {
                         sent_to_actor.insert(tag, (id_of(actor_ports[me] as u16), *a));
                     } else if driver_ids.contains(&d) {
@@ -376,6 +412,12 @@ pub fn check_log(v: &Value) -> Result<BTreeMap<&'static str, u64>, (String, Valu
             "msg" => {
                 let tag = e["tag"].as_u64().unwrap();
                 *stats.entry("messages_delivered").or_default() += 1;
+                // traffic of a concurrently running scenario that strayed onto one of our ports
+                // (see udp_worker) is not ours to judge
+                if tag / 1_000_000 != salt {
+                    // its commands (below) were executed by our actor all the same
+                    *stats.entry("foreign_datagrams_ignored").or_default() += 1;
+                } else {
                 match sent_to_actor.get(&tag) {
                     None => return fail("on_msg-for-a-datagram-nobody-sent", e.clone()),
                     Some((from_id, to)) => {
@@ -389,6 +431,7 @@ pub fn check_log(v: &Value) -> Result<BTreeMap<&'static str, u64>, (String, Valu
                 }
                 if !delivered_tags.insert(tag) {
                     return fail("datagram-delivered-to-on_msg-twice", e.clone());
+                }
                 }
             }
             "timeout" => {
@@ -424,11 +467,23 @@ pub fn check_log(v: &Value) -> Result<BTreeMap<&'static str, u64>, (String, Valu
         if e["who"] == "driver" && e["ev"] == "recv" {
             let payload = e["payload"].as_str().unwrap_or("");
             let Ok(m) = de(payload.as_bytes()) else {
+                if !actor_ports.contains(&e["from_port"].as_u64().unwrap_or(0)) {
+                    *stats.entry("foreign_datagrams_ignored").or_default() += 1;
+                    continue;
+                }
                 return fail("actor-emitted-a-datagram-that-does-not-deserialise", e.clone());
             };
+            if m.tag as u64 / 1_000_000 != salt {
+                *stats.entry("foreign_datagrams_ignored").or_default() += 1;
+                continue;
+            }
             *stats.entry("datagrams_received_from_actors").or_default() += 1;
             match sent_to_driver.get(&(m.tag as u64)) {
-                None => return fail("datagram-received-that-no-actor-was-told-to-send", e.clone()),
+                None => {
+                    let related: Vec<&Value> = events.iter().filter(|x| x.to_string().contains(&m.tag.to_string())).collect();
+                    return fail("datagram-received-that-no-actor-was-told-to-send", json!({"event": e, "events_mentioning_the_tag": related, "salt": salt,
+                        "actor_ports": actor_ports, "driver_ports": driver_ports, "all_events": events}));
+                }
                 Some((actor, driver_id, _)) => {
                     if e["from_port"].as_u64() != Some(actor_ports[*actor]) {
                         return fail("datagram-came-from-another-socket-than-the-sending-actor", e.clone());
@@ -443,6 +498,46 @@ pub fn check_log(v: &Value) -> Result<BTreeMap<&'static str, u64>, (String, Valu
                 return fail("send-emitted-more-than-one-datagram", e.clone());
             }
         }
+    }
+    // Sends that follow a failing Send in the same handler. Loopback UDP may lose a datagram,
+    // so a missing one is normally only a bounded-progress miss - but if *every* Send that
+    // follows a failing one in some handler is missing while not a single other commanded
+    // datagram of the whole run is, the handler's remaining commands were dropped.
+    let mut missed_elsewhere = 0u64;
+    let mut handlers_cut_short: Vec<Value> = Vec::new();
+    for e in &events {
+        if e["who"] != "actor" {
+            continue;
+        }
+        let mut failed_before = false;
+        let (mut after_fail, mut after_fail_missing) = (0u64, 0u64);
+        for c in e["cmds"].as_array().unwrap() {
+            let (Some(d), Some(tag)) = (c["send"].as_u64(), c["tag"].as_u64()) else { continue };
+            if tag % 1_000_000 >= UNSERIALISABLE_FROM as u64 {
+                failed_before = true;
+                *stats.entry("unserialisable_sends_commanded").or_default() += 1;
+                continue;
+            }
+            if !driver_ids.contains(&d) {
+                continue;
+            }
+            let missing = received.get(&tag).copied().unwrap_or(0) == 0;
+            if failed_before {
+                after_fail += 1;
+                after_fail_missing += missing as u64;
+            } else if missing {
+                missed_elsewhere += 1;
+            }
+        }
+        *stats.entry("sends_following_a_failing_send").or_default() += after_fail;
+        if after_fail > 0 && after_fail_missing == after_fail {
+            handlers_cut_short.push(e.clone());
+        } else {
+            missed_elsewhere += after_fail_missing;
+        }
+    }
+    if !handlers_cut_short.is_empty() && missed_elsewhere == 0 {
+        return fail("sends-after-a-failing-send-are-lost", json!({"handlers": handlers_cut_short, "datagrams_missing_elsewhere_in_the_run": 0}));
     }
     stats.insert("actors_started", started.len() as u64);
     stats.insert("sends_to_driver_commanded", sent_to_driver.values().map(|v| v.2).sum());
